@@ -29,7 +29,7 @@ def build(d):
     nodes, state, text = (grammar.gen_pep440_pattern_and_state(d) if pep else grammar.gen_pattern_and_state(d, safe_seps=True))
     if nodes is None:
         return {"discard": state}
-    spec = projgen.gen_project(d, nodes, state, pep_shaped=pep, regimes=["lf", "lf", "crlf", "cr", "mixed"], cover_config=d.chance(1, 4), nested=True)
+    spec = projgen.gen_project(d, nodes, state, pep_shaped=pep, regimes=["lf", "lf", "crlf", "cr", "mixed"], cover_config=d.chance(1, 4), nested=True, share_patterns=True)
     flags, date = projgen.gen_bump(d, nodes, state)
     return {"spec": spec, "flags": flags, "date": date}
 
